@@ -179,7 +179,7 @@ def save_natural_faults(case: int, dest_exists: bool) -> bool:
 
 
 @obligation(prop="C19", sites=("rt",), encodes=["cincoconfig.core.Config.save", "cincoconfig.core.Config.load"],
-            stubs=("FakeFS",), budget={"quick": 200, "thorough": 400},
+            stubs=("FakeFS",), budget={"quick": 500, "thorough": 800},
             what="a file written by save() loads back equal through load() for documents of EVERY length residue: a "
                  "string value padded to n characters, n symbolic in 0..255 (the codecs run concretely, untraced), "
                  "the two binary formats bson and pickle (they start with length / opcode bytes that may "
